@@ -122,6 +122,59 @@ def roundtrip(sh, db, allow_properties, origin, suite, feats=None, text0=None):
             return   # later cycles would only repeat the same loss
         prev_text, prev_c = t2, c1
     sh.count('obs.fixpoint_3_cycles')
+    # ---- the database that has just been rendered is edited in place; its DBML must again re-parse to what it now is
+    rng = random.Random(len(d1))
+    try:
+        edits = []
+        movable = [r for r in db.refs if len(r.col1) == 1 and len(r.col2) == 1 and r.col1[0].table is not r.col2[0].table]
+        if movable and len(db.tables) >= 3:
+            r = rng.choice(movable)
+            side = rng.choice(['col1', 'col2'])
+            col = getattr(r, side)[0]
+            src, other = col.table, (r.col2 if side == 'col1' else r.col1)[0].table
+            dests = [t for t in db.tables if t is not src and t is not other and all(c.name != col.name for c in t.columns)]
+            if dests and len(src.columns) > 1 and not any(col in ix.subjects for ix in src.indexes) and \
+                    not any(q is not r and (col in q.col1 or col in q.col2) for q in db.refs):
+                dst = rng.choice(dests)
+                if rng.random() < 0.5:
+                    src.delete_column(col)
+                    dst.add_column(col)
+                    edits.append('move-column')
+                else:
+                    newc = rng.choice(dst.columns)
+                    n1, n2 = ([newc], list(r.col2)) if side == 'col1' else (list(r.col1), [newc])
+                    if not any(q is not r and q.type == r.type and list(q.col1) == n1 and list(q.col2) == n2 for q in db.refs):
+                        setattr(r, side, [newc])
+                        edits.append('retarget-endpoint')
+        if db.tables and rng.random() < 0.5:
+            rng.choice(db.tables).name += '_edited'
+            edits.append('rename-table')
+        if db.enums and rng.random() < 0.5:
+            rng.choice(db.enums).name += '_edited'
+            edits.append('rename-enum')
+        if not edits:
+            return
+        ce = split_refs(am.strip_comments(walk.content(db)))
+        de = db.dbml
+    except Exception as e:  # noqa
+        cls, where = monitors.classify_exc(e)
+        if not monitors.is_library_error(e):
+            sh.violation('render', f'render-raises-after-edit:{cls}@{where}', f'{cls}: {e}', case, feats)
+        return
+    sh.count('obs.edited_then_roundtrip')
+    dbe, err = parse(de, allow_properties=allow_properties)
+    casee = dict(case, dbml=de, edits=edits)
+    if err is not None:
+        cls, where_ = monitors.classify_exc(err)
+        sh.violation('reparse', f'reparse-raises-after-edit:{cls}@{where_}', f'after {edits}: {cls}: {err}', casee, feats)
+        return
+    import json as _json
+    cb = split_refs(am.strip_comments(walk.content(dbe)))
+    for side_ in (ce, cb):      # an edited reference may change its place in the order of appearance: compare as multisets
+        for key_ in ('refs_inline', 'refs_plain'):
+            side_[key_] = sorted(side_[key_], key=lambda x_: _json.dumps(x_, sort_keys=True, default=str))
+    for p_, a_, b_ in am.diff_items(ce, cb):
+        sh.violation('content', classify(p_, a_, b_) + ('' if classify(p_, a_, b_).count(':') > 1 else '@after-edit'), f'after {edits}: {p_}: {a_!r} != {b_!r}', casee, feats)
 
 
 # ---------------------------------------------------------------------------
